@@ -243,6 +243,9 @@ def report(ctx, kind, inv, scenario, trace=None, extra=None, what=None):
             ctx.known.append(k)
             log("KNOWN-FINDING: property=%s %s [%s] %s" % (ctx.pid, k["id"], inv, k["text"]))
         return False
+    if len(ctx.violations) >= 40:      # enough replay files; keep counting
+        ctx.violations.append({"inv": inv, "replay": None})
+        return True
     p = write_replay(ctx, kind, inv, scenario, trace, extra)
     if len(ctx.violations) < 20:
         log("VIOLATION property=%s replay=%s" % (ctx.pid, p))
